@@ -477,6 +477,9 @@ def check(case):
     labels = set()
     cache_keys = _cache_keys()
     try:
+        # a by-name look-up that happened before this collection's components were defined (an archive
+        # loaded earlier in the same process): whatever it cached must not hide components defined later
+        dr.get_component_by_name("vp_c11.never.registered")
         # -- the host and the datasources -----------------------------------------------------------
         outputs = {}
         ctx = ctx_cls(root, outputs)
